@@ -170,7 +170,10 @@ def oracle(case):
                     f"add_particle_data while the particles carry {sum(vals)!r} (prior content {vol * prior!r}): the smeared "
                     f"{case['quantity']} is not conserved (kernel={case['kernel']}, sigma={case['sigma']}, n_sigma={case['nsig']})")
     elif all(v >= 0 for v in vals):
-        if not (math.isfinite(tot) and tot - vol * prior <= sum(vals) * (1 + 1e-9) + 1e-300):
+        # rounding: every node holds fl(prior_i + deposit_i), so the deposited total read off the grid carries an error of
+        # up to ~ulp(|node|) per node (times the cell volume); that is not a deposit
+        slack = 1e-13 * abs(vol) * math.fsum(abs(g) for g in full["grid"])
+        if not (math.isfinite(tot) and tot - vol * prior <= sum(vals) * (1 + 1e-9) + slack + 1e-300):
             return f"clipped support: deposited {tot - vol * prior!r} exceeds the particles' quantity {sum(vals)!r}"
     # add flag
     if case["add"] and case.get("prior"):
